@@ -64,9 +64,9 @@ Overlays(sh) ==
             xi \in Opt({Xp("skip", 0), Xp("forbid", 0), Xp("kwargs", 0), Xp("target", 4), Xp("saturate", 0)}),
             xo \in Opt({Xp("skip", 0), Xp("target", 4), Xp("extract", 0)})}
     [] Slice = "D" ->
-         {[NoOv EXCEPT !.map = m, !.aslist = al, !.extra_in = xi] :
+         {[NoOv EXCEPT !.map = m, !.aslist = al, !.extra_in = xi, !.extra_out = xo] :
             m \in Opt(OneEntryMaps(ids, ListSpecs) \cup {<<Entry({IdA}, PSpec(<<IdxKey(0)>>)), Entry({IdB}, s), Entry({IdC}, t)>> : s \in ListSpecs, t \in ListSpecs}),
-            al \in Opt({TRUE}), xi \in Opt({Xp("forbid", 0)})}
+            al \in Opt({TRUE}), xi \in Opt({Xp("forbid", 0)}), xo \in Opt({Xp("extract", 0)})}
     [] Slice = "E" ->
          {[NoOv EXCEPT !.map = m, !.omit = om, !.style = s] :
             m \in Opt(OneEntryMaps(ids, {PSpec(<<N, Ell>>), PSpec(<<N, K2, Ell>>), PSpec(<<K1>>)}) \cup MultiMaps(ids, {PSpec(<<N, Ell>>)})),
